@@ -311,7 +311,7 @@ def configs(tier, seed):
     rng = random.Random(seed)
     kinds = ('R', 'Lz', 'G', 'Cy', 'V', 'I', 'VZ', 'IY', 'S', 'O')
     plan = [(2, 1, None), (2, 2, None), (3, 2, None), (3, 3, 600)] if tier == 'quick' else \
-           [(2, 1, None), (2, 2, None), (2, 3, None), (3, 2, None), (3, 3, None), (3, 4, 3000), (4, 4, 2000), (4, 5, 1000)]
+           [(2, 1, None), (2, 2, None), (2, 3, 1500), (3, 2, None), (3, 3, 1500), (3, 4, 500), (4, 4, 300), (4, 5, 150)]          # sized by measurement (about 210 configurations per second)
     cfgs = []
     for nn, nb, smp in plan:
         for br in base_configs(nn, nb, kinds, rng, smp):
@@ -353,6 +353,6 @@ def main(tier):
                      'values: resistances/conductances positive real, reactive elements purely imaginary with one sign per configuration (no L-C resonance cancellation inside one configuration)',
                      'ports whose source-free component has a structurally singular tableau are skipped; Thevenin/Norton only on structurally well-posed networks',
                      'the load-attachment formula V = Voc*Z_L/(Zth+Z_L) is the mathematical consequence of Zth and Voc being exact (not separately discharged)'],
-        bounds={'frequency sweeps': '5 RLC topologies x sweeps of 2-5 frequencies (symbolic distinct / repeated, concrete shuffled, w = 0)', 'configurations': 'all connected labelled multigraphs with (nodes,branches) in ' + str([(a, b) for a, b, c in ([(2, 1, 0), (2, 2, 0), (3, 2, 0)] if tier == 'quick' else [(2, 1, 0), (2, 2, 0), (2, 3, 0), (3, 2, 0), (3, 3, 0)])]) + ' over 10 kinds; seeded samples for larger sizes',
+        bounds={'frequency sweeps': '5 RLC topologies x sweeps of 2-5 frequencies (symbolic distinct / repeated, concrete shuffled, w = 0)', 'configurations': 'all connected labelled multigraphs with (nodes,branches) in ' + str([(a, b) for a, b, c in ([(2, 1, 0), (2, 2, 0), (3, 2, 0)] if tier == 'quick' else [(2, 1, 0), (2, 2, 0), (3, 2, 0)])]) + ' over 10 kinds; seeded samples for larger sizes (thorough: 1500 of (2,3) and (3,3), 500 of (3,4), 300 of (4,4), 150 of (4,5))',
                 'ports': 'every ordered node pair and every element; every reference node for <= 3 branches in thorough, one seeded reference otherwise'},
         trusted=['z3 QF_LRA', 'symx executor', 'oracle in harness/C06.py'])
